@@ -1,17 +1,485 @@
 package main
 
 import (
+	"encoding/json"
+	"flag"
 	"fmt"
-	"golang.org/x/tools/go/packages"
-	"golang.org/x/tools/go/ssa"
-	"golang.org/x/tools/go/ssa/ssautil"
+	"os"
+	"path/filepath"
+	"runtime"
+	"sort"
+	"strconv"
+	"strings"
+	"time"
 )
 
+type PropCfg struct {
+	Packages []string `json:"packages"`
+	Note     string   `json:"note"`
+}
+
+type KnownFinding struct {
+	Property   string `json:"property"`
+	Obligation string `json:"obligation"`
+	What       string `json:"what"`
+}
+
+type KnownFile struct {
+	Findings []KnownFinding `json:"findings"`
+	Fixed    []string       `json:"fixed"`
+}
+
+type Claimed struct {
+	Property    string            `json:"property"`
+	Obligations map[string]string `json:"obligations"` // name -> clause hash ("" for safe/frame)
+}
+
+func hasID(ids []string, id string) bool {
+	for _, x := range ids {
+		if x == id {
+			return true
+		}
+	}
+	return false
+}
+
+func contractMentions(c *Contract, id string) bool {
+	for _, cl := range c.ensures {
+		if hasID(cl.ids, id) {
+			return true
+		}
+	}
+	if hasID(c.nopanic, id) {
+		return true
+	}
+	for _, cls := range c.loops {
+		for _, cl := range cls {
+			if hasID(cl.ids, id) {
+				return true
+			}
+		}
+	}
+	return false
+}
+
 func main() {
-	cfg := &packages.Config{Mode: packages.LoadAllSyntax, Dir: "/repo", BuildFlags: []string{"-tags=verif"}}
-	pkgs, err := packages.Load(cfg, "./rlp")
-	if err != nil { panic(err) }
-	prog, spkgs := ssautil.AllPackages(pkgs, ssa.GlobalDebug)
-	prog.Build()
-	fmt.Println(len(spkgs), spkgs[0].Func("readSize") != nil)
+	if len(os.Args) < 2 {
+		fmt.Fprintln(os.Stderr, "usage: govc check|claim|ssa ...")
+		os.Exit(2)
+	}
+	cmd := os.Args[1]
+	fs := flag.NewFlagSet(cmd, flag.ExitOnError)
+	id := fs.String("id", "", "property id")
+	repo := fs.String("repo", "/repo", "repository root")
+	verif := fs.String("verif", "/verif", "verif root")
+	tier := fs.String("tier", os.Getenv("VERIF_TIER"), "quick|thorough")
+	keep := fs.Bool("keep", false, "keep all SMT files")
+	only := fs.String("only", "", "only functions whose name contains this substring")
+	verbose := fs.Bool("v", false, "verbose")
+	pkgPat := fs.String("pkg", "", "package pattern (ssa command)")
+	fnName := fs.String("func", "", "function (ssa command)")
+	fs.Parse(os.Args[2:])
+	if *tier == "" {
+		*tier = "quick"
+	}
+	switch cmd {
+	case "check", "claim":
+		os.Exit(runCheck(cmd, *id, *repo, *verif, *tier, *keep, *only, *verbose))
+	case "ssa":
+		dumpSSA(*repo, *pkgPat, *fnName)
+	default:
+		fmt.Fprintln(os.Stderr, "unknown command", cmd)
+		os.Exit(2)
+	}
+}
+
+func dumpSSA(repo, pat, fn string) {
+	eng, err := NewEngine(repo, []string{pat})
+	if err != nil {
+		fmt.Fprintln(os.Stderr, err)
+		os.Exit(2)
+	}
+	for f := range eng.allFuncs {
+		if eng.inModule(f) && (contractKey(f) == fn || f.String() == fn) {
+			f.WriteTo(os.Stdout)
+			for _, li := range computeLoops(f) {
+				fmt.Printf("loop %d: header block %d (%s)\n", li.ordinal, li.header.Index, li.header.Comment)
+			}
+		}
+	}
+}
+
+func runCheck(cmd, id, repo, verif, tier string, keep bool, only string, verbose bool) int {
+	t0 := time.Now()
+	seed, _ := strconv.Atoi(os.Getenv("VERIF_SEED"))
+	var props map[string]PropCfg
+	b, err := os.ReadFile(filepath.Join(verif, "props.json"))
+	if err != nil {
+		fmt.Fprintln(os.Stderr, err)
+		return 2
+	}
+	if err := json.Unmarshal(b, &props); err != nil {
+		fmt.Fprintln(os.Stderr, "props.json:", err)
+		return 2
+	}
+	pc, ok := props[id]
+	if !ok {
+		fmt.Fprintln(os.Stderr, "unknown property", id)
+		return 2
+	}
+	eng, err := NewEngine(repo, pc.Packages)
+	if err != nil {
+		fmt.Fprintln(os.Stderr, "load:", err)
+		return 2
+	}
+	specs, err := LoadSpecs(filepath.Join(verif, "specs"))
+	if err != nil {
+		fmt.Fprintln(os.Stderr, "specs:", err)
+		return 2
+	}
+	eng.specs = specs
+	tLoad := time.Since(t0).Seconds()
+
+	outDir := filepath.Join(verif, "out", id)
+	os.RemoveAll(outDir)
+	os.MkdirAll(outDir, 0o755)
+	cfg := &SolverCfg{outDir: outDir, timeout: 10 * time.Second, first: 2 * time.Second, workers: runtime.NumCPU() - 2, seed: seed, keepSMT: keep}
+	if tier == "thorough" {
+		cfg.timeout = 60 * time.Second
+		cfg.first = 5 * time.Second
+	}
+	if cfg.workers < 2 {
+		cfg.workers = 2
+	}
+
+	// functions under contract for this property
+	var results []*FuncResult
+	var cts []*Contract
+	for _, c := range eng.contracts.list {
+		if c.isType || c.trusted {
+			continue
+		}
+		if contractMentions(c, id) && (only == "" || strings.Contains(c.key, only)) {
+			cts = append(cts, c)
+		}
+	}
+	sort.Slice(cts, func(i, j int) bool { return cts[i].pkgPath+cts[i].key < cts[j].pkgPath+cts[j].key })
+	var structural []string
+	for _, c := range cts {
+		f := eng.findFunction(c)
+		if f == nil {
+			structural = append(structural, fmt.Sprintf("%s.%s: function named by a contract does not exist", shortPkg(c.pkgPath), c.key))
+			continue
+		}
+		r := eng.verifyFunction(f, c)
+		if r.err != "" {
+			structural = append(structural, fmt.Sprintf("%s: %s", r.name, r.err))
+		}
+		results = append(results, r)
+	}
+	// lemmas
+	lemmaRes := eng.lemmaObligations(id)
+	if lemmaRes != nil {
+		results = append(results, lemmaRes)
+	}
+	tGen := time.Since(t0).Seconds() - tLoad
+
+	filter := func(o *Obligation) bool { return hasID(o.ids, id) }
+	eng.solveAll(results, cfg, filter)
+
+	// collect
+	var all []*Obligation
+	for _, r := range results {
+		if r.fc == nil || r.err != "" {
+			continue
+		}
+		for _, o := range r.fc.obls {
+			if filter(o) {
+				all = append(all, o)
+			}
+		}
+	}
+	sort.Slice(all, func(i, j int) bool { return all[i].name < all[j].name })
+
+	if cmd == "claim" {
+		cl := Claimed{Property: id, Obligations: map[string]string{}}
+		for _, o := range all {
+			if o.status == "discharged" {
+				h := ""
+				if o.clause != nil {
+					h = o.clause.Hash()
+				}
+				cl.Obligations[o.name] = h
+			} else {
+				fmt.Printf("not claimed (%s): %s\n", o.status, o.name)
+			}
+		}
+		os.MkdirAll(filepath.Join(verif, "claimed"), 0o755)
+		jb, _ := json.MarshalIndent(cl, "", " ")
+		os.WriteFile(filepath.Join(verif, "claimed", id+".json"), jb, 0o644)
+		fmt.Printf("claimed %d obligations for %s\n", len(cl.Obligations), id)
+		for _, s := range structural {
+			fmt.Println("STRUCTURAL:", s)
+		}
+		return 0
+	}
+
+	// known findings
+	var known KnownFile
+	if kb, err := os.ReadFile(filepath.Join(verif, "known_findings.json")); err == nil {
+		json.Unmarshal(kb, &known)
+	}
+	isKnown := func(name string) *KnownFinding {
+		for i := range known.Findings {
+			k := &known.Findings[i]
+			if k.Property == id && k.Obligation == name {
+				return k
+			}
+		}
+		return nil
+	}
+	// claimed set
+	var claimed Claimed
+	haveClaim := false
+	if cb, err := os.ReadFile(filepath.Join(verif, "claimed", id+".json")); err == nil {
+		if json.Unmarshal(cb, &claimed) == nil {
+			haveClaim = true
+		}
+	}
+
+	replayDir := filepath.Join(verif, "replays", id)
+	os.RemoveAll(replayDir)
+	os.MkdirAll(replayDir, 0o755)
+	exit := 0
+	nDis, nObl := 0, 0
+	var violations []string
+	solverCount := map[string]int{}
+	var solverSecs float64
+	present := map[string]*Obligation{}
+	var samples []map[string]interface{}
+	var slow []*Obligation
+	for _, o := range all {
+		present[o.name] = o
+		solverSecs += o.secs
+		kf := isKnown(o.name)
+		counted := !haveClaim || claimed.Obligations[o.name] != "" || hasKey(claimed.Obligations, o.name)
+		if kf != nil {
+			if o.status == "failed" {
+				fmt.Printf("KNOWN-FINDING: property=%s %s %s\n", id, o.name, kf.What)
+			} else if o.status == "discharged" {
+				fmt.Printf("note: known finding %s no longer fails (%s)\n", o.name, o.status)
+			}
+			continue
+		}
+		if !counted {
+			// generated but never claimed (unstable or not yet discharged): reported, not decisive
+			if verbose {
+				fmt.Printf("unclaimed %s: %s\n", o.status, o.name)
+			}
+			continue
+		}
+		nObl++
+		switch o.status {
+		case "discharged":
+			nDis++
+			solverCount[o.solver]++
+		case "failed":
+			path := writeReplay(eng, replayDir, id, o)
+			suffix := ""
+			if !replayOK(o) {
+				suffix = " no-failing-input-found"
+			}
+			line := fmt.Sprintf("VIOLATION property=%s replay=%s obligation=%s%s", id, path, o.name, suffix)
+			violations = append(violations, line)
+			exit = 1
+		default:
+			path := writeReplay(eng, replayDir, id, o)
+			line := fmt.Sprintf("VIOLATION property=%s replay=%s obligation=%s (undischarged: %s) no-failing-input-found", id, path, o.name, o.status)
+			violations = append(violations, line)
+			exit = 1
+		}
+		slow = append(slow, o)
+	}
+	sort.Slice(slow, func(i, j int) bool { return slow[i].secs > slow[j].secs })
+	for i, o := range all {
+		if i%maxInt(1, len(all)/8) == 0 && len(samples) < 10 {
+			samples = append(samples, map[string]interface{}{"obligation": o.name, "kind": o.kind, "what": o.descr, "status": o.status, "solver": o.solver, "secs": round3(o.secs)})
+		}
+	}
+	// claimed obligations that were not generated at all
+	var missing []string
+	if haveClaim {
+		for name := range claimed.Obligations {
+			if present[name] == nil {
+				missing = append(missing, name)
+			}
+		}
+		sort.Strings(missing)
+	}
+	for _, v := range violations {
+		fmt.Println(v)
+	}
+	if len(structural) > 0 || len(missing) > 0 {
+		for _, s := range structural {
+			fmt.Println("UNDECIDED:", s)
+		}
+		for _, m := range missing {
+			fmt.Println("UNDECIDED: claimed obligation was not generated:", m)
+		}
+		if exit == 0 {
+			exit = 2
+		}
+	}
+	if nObl == 0 && exit == 0 {
+		fmt.Println("UNDECIDED: no obligations generated for", id)
+		exit = 2
+	}
+	writeEvidence(eng, verif, id, tier, seed, results, all, nObl, nDis, len(violations), solverCount, solverSecs, slow, samples, structural, missing, time.Since(t0).Seconds(), tLoad, tGen, haveClaim)
+	fmt.Printf("%s: %d obligations, %d discharged, %d violations, load %.1fs gen %.1fs total %.1fs\n", id, nObl, nDis, len(violations), tLoad, tGen, time.Since(t0).Seconds())
+	return exit
+}
+
+func hasKey(m map[string]string, k string) bool { _, ok := m[k]; return ok }
+
+func maxInt(a, b int) int {
+	if a > b {
+		return a
+	}
+	return b
+}
+
+func round3(f float64) float64 { return float64(int(f*1000)) / 1000 }
+
+func replayOK(o *Obligation) bool { return o.replayed }
+
+func writeReplay(eng *Engine, dir, id string, o *Obligation) string {
+	path := filepath.Join(dir, sanitizeFile(o.name)+".txt")
+	var sb strings.Builder
+	fmt.Fprintf(&sb, "property: %s\nobligation: %s\nkind: %s\nfunction: %s\nwhat: %s\nstatus: %s\nsolver: %s\n", id, o.name, o.kind, o.fn, o.descr, o.status, o.solver)
+	if o.clause != nil {
+		fmt.Fprintf(&sb, "clause: %s %s\n", o.clause.kind, o.clause.text)
+	}
+	if len(o.model) > 0 {
+		sb.WriteString("counterexample (function parameters):\n")
+		var ks []string
+		for k := range o.model {
+			ks = append(ks, k)
+		}
+		sort.Strings(ks)
+		for _, k := range ks {
+			fmt.Fprintf(&sb, "  %s = %s\n", k, o.model[k])
+		}
+	}
+	fmt.Fprintf(&sb, "smt file: %s\nsolver output:\n%s\n", o.smt, o.output)
+	if r := tryReplay(eng, dir, id, o); r != "" {
+		sb.WriteString(r)
+	}
+	os.WriteFile(path, []byte(sb.String()), 0o644)
+	return path
+}
+
+func writeEvidence(eng *Engine, verif, id, tier string, seed int, results []*FuncResult, all []*Obligation, nObl, nDis, nViol int,
+	solverCount map[string]int, solverSecs float64, slow []*Obligation, samples []map[string]interface{}, structural, missing []string, wall, tLoad, tGen float64, haveClaim bool) {
+	var funcs, inlined, opaque, trusted, notes []string
+	seenI, seenO, seenT, seenN := map[string]bool{}, map[string]bool{}, map[string]bool{}, map[string]bool{}
+	for _, r := range results {
+		if r.fn != nil {
+			funcs = append(funcs, r.name)
+		}
+		if r.fc == nil {
+			continue
+		}
+		for k := range r.fc.inlined {
+			if !seenI[k] {
+				seenI[k] = true
+				inlined = append(inlined, k)
+			}
+		}
+		for k := range r.fc.opaque {
+			if !seenO[k] {
+				seenO[k] = true
+				opaque = append(opaque, k)
+			}
+		}
+		for k := range r.fc.trusted {
+			if !seenT[k] {
+				seenT[k] = true
+				trusted = append(trusted, k)
+			}
+		}
+		for k := range r.fc.notes {
+			if !seenN[k] {
+				seenN[k] = true
+				notes = append(notes, k)
+			}
+		}
+	}
+	sort.Strings(funcs)
+	sort.Strings(inlined)
+	sort.Strings(opaque)
+	sort.Strings(trusted)
+	sort.Strings(notes)
+	var slowest []map[string]interface{}
+	for i, o := range slow {
+		if i >= 5 {
+			break
+		}
+		slowest = append(slowest, map[string]interface{}{"obligation": o.name, "secs": round3(o.secs), "solver": o.solver})
+	}
+	kinds := map[string]int{}
+	for _, o := range all {
+		kinds[o.kind]++
+	}
+	if samples == nil {
+		samples = []map[string]interface{}{}
+	}
+	assumptions := []string{
+		"go/packages, go/types and go/ssa (x/tools v0.29.0) faithfully represent the compiled program; Go compiler and runtime",
+		"govc's SSA-to-SMT encoding (DESIGN.md 2.4 / appendix E) and the SMT solvers (z3 4.8.12, z3 5.1.0, cvc5 1.0)",
+		"sequential execution: no other goroutine changes the modelled state during a call; go statements and channel sends are skipped",
+		"library models (math/big, bytes, encoding/binary, errors, fmt, sync) and the axioms in /verif/specs/lib_*.smt2 are trusted",
+		"logging/formatting packages are assumed effect-free on modelled state",
+		"opaque callees: results unconstrained, heap havocked on the inferred write set (frame inference is type/class based, not unsafe/reflection aware)",
+		"termination is not proved except where a loop carries a decreases clause",
+		"slice capacities and string lengths are assumed <= 2^40 (memory bound) so index arithmetic cannot wrap",
+	}
+	for _, t := range trusted {
+		assumptions = append(assumptions, "trusted contract (assumed, not checked): "+t)
+	}
+	for _, n := range notes {
+		assumptions = append(assumptions, "note: "+n)
+	}
+	ev := map[string]interface{}{
+		"property_id": id,
+		"tier":        tier,
+		"seed":        seed,
+		"level":       "proof",
+		"wall_s":      round3(wall),
+		"violations":  nViol,
+		"assumptions": assumptions,
+		"coverage": map[string]interface{}{
+			"obligations":              nObl,
+			"discharged":               nDis,
+			"checker_cmd":              fmt.Sprintf("/verif/bin/govc check -id %s -tier %s", id, tier),
+			"trusted_base":             []string{"go/ssa (x/tools v0.29.0)", "govc VC generator", "z3 4.8.12 / z3 5.1.0 / cvc5 1.0", "library models and axioms under /verif/specs"},
+			"functions_under_contract": funcs,
+			"inlined_functions":        inlined,
+			"opaque_calls":             opaque,
+			"trusted_contracts_used":   trusted,
+			"obligation_kinds":         kinds,
+			"discharged_by_backend":    solverCount,
+			"solver_time_s":            round3(solverSecs),
+			"load_s":                   round3(tLoad),
+			"vcgen_s":                  round3(tGen),
+			"slowest":                  slowest,
+			"samples":                  samples,
+			"structural_failures":      structural,
+			"claimed_not_generated":    missing,
+			"claimed_set_present":      haveClaim,
+			"machine_integers":         "exact 8/16/32/64-bit vectors; unbounded integers only as math/big values and in wide() spec terms",
+		},
+	}
+	jb, _ := json.MarshalIndent(ev, "", " ")
+	os.MkdirAll(filepath.Join(verif, "evidence"), 0o755)
+	os.WriteFile(filepath.Join(verif, "evidence", id+".json"), jb, 0o644)
 }
